@@ -109,6 +109,7 @@ func makeUnsignedDesignateCommitteeNotaryTx(roleContract, committee, sharedTxDat
 // (the membership test is the library's, its calls are logged); checkCommitteeRoles asks about P2PNotary (32) first and
 // NeoFSAlphabet (16) second and hands the two answers out in this order.
 func checkRole(role, roleContract, m, committee) (ok, err)
+  logged
   ensures [C13] xcalls("rolemgmt.ContractReader.GetDesignatedByRole").len == old(xcalls("rolemgmt.ContractReader.GetDesignatedByRole")).len + 1
   ensures [C13] exists h Int :: xcalls("rolemgmt.ContractReader.GetDesignatedByRole")[old(xcalls("rolemgmt.ContractReader.GetDesignatedByRole")).len] == ev_rolemgmt_ContractReader_GetDesignatedByRole(role, h)
   ensures [C13] forall j Int {xcalls("rolemgmt.ContractReader.GetDesignatedByRole")[j]} :: 0 <= j && j < old(xcalls("rolemgmt.ContractReader.GetDesignatedByRole")).len ==> xcalls("rolemgmt.ContractReader.GetDesignatedByRole")[j] == old(xcalls("rolemgmt.ContractReader.GetDesignatedByRole"))[j]
@@ -289,4 +290,52 @@ func initNNSContract(ctx, prm) (res, err)
     invariant xcalls("readNNSOnChainState").len >= old(xcalls("readNNSOnChainState")).len
     invariant xcalls("readNNSOnChainState").len == old(xcalls("readNNSOnChainState")).len ==> xcalls("management.Contract.Deploy").len == old(xcalls("management.Contract.Deploy")).len
     invariant xcalls("readNNSOnChainState").len > old(xcalls("readNNSOnChainState")).len ==> !(isnil(cres2("readNNSOnChainState", old(xcalls("readNNSOnChainState")).len)) && !isnil(cres("readNNSOnChainState", old(xcalls("readNNSOnChainState")).len)))
+@*/
+
+/*@
+module alphabetrole
+props C13
+dialect go64
+use deploy bootstrap
+
+// C13 ("the NeoFSAlphabet role is designated to exactly the committee", "running the procedure again designates nothing"):
+// every designation request the stage builds is for the role NeoFSAlphabet (16) and exactly the committee keys it was given,
+// one Notary request per built transaction; it reports success only after a role check that found every committee key in
+// the role; and a call whose first role check already finds them sends nothing.
+func (x blockchainMonitor) waitForNextBlock(ctx) (err)
+  trusted
+  pure
+  logged
+
+func newTransactionGroupMonitor(w) (r)
+  trusted
+  pure
+
+func (x transactionGroupMonitor) isPending() (r)
+  trusted
+  pure
+
+func (x transactionGroupMonitor) trackPendingTransactionsAsync(ctx, vub, txs)
+  trusted
+  pure
+  logged
+
+pure roleOK(k Int) Bool = isnil(cres2("checkRole", k)) && asbool(cres("checkRole", k))
+
+func designateNeoFSAlphabet(ctx, prm) (err)
+  ensures [C13] forall j Int {xcalls("rolemgmt.Contract.DesignateAsRoleTransaction")[j]} :: old(xcalls("rolemgmt.Contract.DesignateAsRoleTransaction")).len <= j && j < xcalls("rolemgmt.Contract.DesignateAsRoleTransaction").len
+        ==> xcalls("rolemgmt.Contract.DesignateAsRoleTransaction")[j] == ev_rolemgmt_Contract_DesignateAsRoleTransaction(16, prm.committee)
+  ensures [C13] xcalls("notary.Actor.Notarize").len - old(xcalls("notary.Actor.Notarize")).len == xcalls("rolemgmt.Contract.DesignateAsRoleTransaction").len - old(xcalls("rolemgmt.Contract.DesignateAsRoleTransaction")).len
+  // success is reported only after a role check that answered yes
+  ensures [C13] isnil(err) ==> xcalls("checkRole").len > old(xcalls("checkRole")).len && roleOK(xcalls("checkRole").len - 1)
+  // idempotence: nothing is sent by a call whose first role check finds the role designated
+  ensures [C13] xcalls("checkRole").len > old(xcalls("checkRole")).len && roleOK(old(xcalls("checkRole")).len) ==> xcalls("notary.Actor.Notarize").len == old(xcalls("notary.Actor.Notarize")).len
+  loop 0
+    invariant xcalls("checkRole").len >= old(xcalls("checkRole")).len
+    invariant forall j Int {xcalls("rolemgmt.Contract.DesignateAsRoleTransaction")[j]} :: old(xcalls("rolemgmt.Contract.DesignateAsRoleTransaction")).len <= j && j < xcalls("rolemgmt.Contract.DesignateAsRoleTransaction").len
+        ==> xcalls("rolemgmt.Contract.DesignateAsRoleTransaction")[j] == ev_rolemgmt_Contract_DesignateAsRoleTransaction(16, prm.committee)
+    invariant xcalls("notary.Actor.Notarize").len - old(xcalls("notary.Actor.Notarize")).len == xcalls("rolemgmt.Contract.DesignateAsRoleTransaction").len - old(xcalls("rolemgmt.Contract.DesignateAsRoleTransaction")).len
+    invariant xcalls("rolemgmt.Contract.DesignateAsRoleTransaction").len >= old(xcalls("rolemgmt.Contract.DesignateAsRoleTransaction")).len
+    invariant xcalls("checkRole").len == old(xcalls("checkRole")).len ==> xcalls("notary.Actor.Notarize").len == old(xcalls("notary.Actor.Notarize")).len
+    invariant xcalls("checkRole").len > old(xcalls("checkRole")).len ==> !roleOK(old(xcalls("checkRole")).len)
 @*/
